@@ -214,6 +214,8 @@ def account(prop, case, stats):
     stats.labels.update(labels)
     notes = getattr(prop, "NOTES", None)
     if notes:
+        if any(str(k).startswith("inexhaustive:") for k in notes):
+            stats.exhaustive = False  # the case itself says that it did not finish its enumeration
         stats.labels.update(notes)
         notes.clear()
     stats.cases_seen += 1
